@@ -27,13 +27,14 @@ ASSUMPTIONS = [
     "of handling the signal (1 s loop period + the 0.1 s polling sleeps of Arbiter.stop)",
     "siginterrupt(SIGTERM, False): the handler does not wake recv/accept-style calls (it runs when they return) but does wake "
     "select/sleep (PEP 475 then resumes them)",
-    "gevent/eventlet run() loops are not executed (no hub in the simulator): async columns of this property are NOT covered",
+    "the real GeventWorker.run() executes on a shim of the gevent primitives it uses (simkit/gevent_shim.py: Pool, StreamServer, sleep, spawn, Timeout); the eventlet run() loop is NOT executed",
     "a request on a connection of which no byte had been read is not demanded to be answered",
 ]
 COMPONENTS = {"real": ["Arbiter.run/handle_term|int|quit/halt/stop/kill_workers/reap_workers", "sock.close_sockets/UnixSocket", "Pidfile.unlink",
-                       "Worker.init_signals/handle_exit/handle_quit", "SyncWorker.run/run_for_one/wait/handle", "ThreadWorker.run (drain of futures)/handle"],
+                       "Worker.init_signals/handle_exit/handle_quit", "SyncWorker.run/run_for_one/wait/handle", "ThreadWorker.run (drain of futures)/handle",
+                       "GeventWorker.run (heartbeat loop, drain, stop)/handle_quit + AsyncWorker.handle keep-alive loop"],
               "stub": ["kernel", "stub worker run loop (master family)", "selector/executor/lock (gthread)", "clients"],
-              "not_covered": ["ggevent.GeventWorker.run", "geventlet.EventletWorker.run"]}
+              "shim": ["gevent Pool/StreamServer/sleep/spawn/Timeout (simkit.gevent_shim)"], "not_covered": ["geventlet.EventletWorker.run"]}
 
 PHASES = ["idle", "head_partial", "app_running", "resp_partial", "keepalive_idle"]
 SIG = {"TERM": signal.SIGTERM, "QUIT": signal.SIGQUIT, "INT": signal.SIGINT}
@@ -75,11 +76,11 @@ def make_case(index, rng, tier):
     gt = rng.choice([1, 2, 3])
     sig = rng.choice(["TERM", "TERM", "TERM", "QUIT", "INT"])
     if fam == "worker":
-        kind = rng.choice(["sync", "gthread"])
+        kind = rng.choice(["sync", "gthread", "gevent"])
         phase = rng.choice(PHASES)
         ops, win, app = phase_client(rng, phase, gt)
         clients = [{"ops": ops, "phase": phase}]
-        if kind == "gthread" and rng.randrange(2):
+        if kind in ("gthread", "gevent") and rng.randrange(2):
             ph2 = rng.choice(PHASES)
             ops2, win2, app2 = phase_client(rng, ph2, gt)
             clients.append({"ops": ops2, "phase": ph2})
@@ -106,7 +107,7 @@ def make_case(index, rng, tier):
                 "buggify": {"fork_child_first": rng.randrange(2) == 0, "spurious_select": rng.randrange(3) == 0,
                             "random_spawn_delay": rng.randrange(2) == 0},
                 "extra": rng.choice([None, None, "second-signal", "killw"])}
-    kind = rng.choice(["sync", "gthread"])
+    kind = rng.choice(["sync", "gthread", "gevent"])
     clients = []
     for i in range(rng.randrange(1, 4)):
         ph = rng.choice(PHASES[1:])
@@ -128,6 +129,10 @@ def judge_clients(res, case, clients, specs, stream_first_read, term_time, gt, f
         if fr is None or fr > term_time + 1e-9:
             continue                      # nothing of it had been read: not demanded
         ph = spec["phase"]
+        if case.get("kind") == "gevent" and ph == "head_partial":
+            gaps = [op[1] for op in spec["ops"][2:] if op[0] == "wait"]
+            if gaps and max(gaps) >= case.get("keepalive", 2) - 0.1:
+                continue       # the async keep-alive timeout also bounds how long a request head may take: independent of TERM
         # when does the request complete, how long does the application need
         ops = spec["ops"]
         t = 0.0
@@ -240,6 +245,10 @@ def run_worker(case, choices):
             bound = max(fins + [term_time]) + 1.5
             if case["sig"] == "TERM" and kind == "gthread":
                 bound = max(fins + [term_time + 1.0]) + 1.5
+            if kind == "gevent":
+                # heartbeat loop (1 s) + drain loop (1 s steps, idle keep-alive handlers count as busy until the graceful
+                # timeout) + stop(timeout=1)
+                bound = max(fins + [term_time]) + gt + 3.5
             exited_at = None
             for e in sim.log.tail:
                 pass
